@@ -27,7 +27,7 @@ COMPONENTS = {
     "stub": ["leaf converter (fault site)", "payload objects"],
 }
 TIERS = {
-    "quick": {"runs": 6000, "chunk": 100, "selftest": 64, "minimise_s": 30},
+    "quick": {"runs": 30000, "chunk": 100, "selftest": 64, "minimise_s": 30},
     "thorough": {"budget_s": 600, "chunk": 400, "selftest": 512, "minimise_s": 90},
 }
 PROBES = ["contains_constraint", "union_of_containers", "dependency_on_excluded_field", "fixed_tuple_offending", "set_with_fault", "dict_key_fault", "required_field_excluded", "typed_addition_fault", "varargs_fault",
